@@ -209,7 +209,7 @@ func (k Kind) String() string {
 type Outcome struct {
 	Kind       Kind
 	Error      string          // error text for FailStay/FailError (default "simulated failure")
-	MesosState mesos.TaskState // Die (default TASK_FAILED), KILL/OK override
+	MesosState mesos.TaskState // terminal state for Die (default TASK_FAILED) and KILL (default by control mode); the zero value TASK_STARTING means unset
 	ExitCode   int             // HOOK / basic task termination
 	// Gate, if set, holds the whole reaction until World.Release(Gate) — a
 	// "late reply" is OK+Gate released after the core gave up. Delay is added
